@@ -134,6 +134,10 @@ class Run:
                 stale.append(k)
                 lines.append('STALE-KNOWN-FINDING: property=%s key=%s (no longer reported)' % (self.pid, k['key']))
         rdir = os.path.join(evidence_dir(), 'replay', self.pid)
+        if only_key is None and os.path.isdir(rdir):
+            for fn in os.listdir(rdir):
+                if fn.endswith('.json'):
+                    os.remove(os.path.join(rdir, fn))
         for v in new_v:
             if only_key is not None and v['key'] != only_key:
                 continue
